@@ -855,7 +855,7 @@ pub fn run_c19(tier: &'static str) -> i32 {
 pub fn run_c20(tier: &'static str) -> i32 {
     let t0 = Instant::now();
     let mut rep = Report::new();
-    let scs: Vec<PyScenario> = scenarios(tier).into_iter().filter(|s| s.id.contains("/w1/") && s.id.contains("/p0/") && (!s.id.contains("/h-") || s.id.ends_with("/h-resetup")) && !s.id.contains("/at-goal")).collect();
+    let scs: Vec<PyScenario> = scenarios(tier).into_iter().filter(|s| s.id.contains("/w1/") && s.id.contains("/p0/") && (!s.id.contains("/h-") || s.id.ends_with("/h-resetup")) && !s.id.contains("/at-goal") && !s.id.contains("/frac") && !s.id.starts_with("SO2b")).collect();
     rep.count("scenarios", scs.len() as u64);
     let input = json!({"tier": tier, "scenarios": scs.iter().map(|s| s.json()).collect::<Vec<_>>(), "k_max": if tier == "quick" { 8 } else { 12 }});
     if let Some(r) = run_driver("c20", &input, &mut rep) {
